@@ -65,7 +65,10 @@ def group(recs, doc, tmap):
             cfg = sorted(x for x in (sid(n) for n in r[3]) if x != 1)
             return obs_rec("mark", 0, val_str(r[1]), [val_str(x) for x in r[2]], cfg)
         if k in ("IS", "IQ"):
-            return obs_rec("ienq", 0, "", r[1].split("."))
+            # payload text "n=v;n2=v2"; booleans are 1/0 on the specification's side (as in marks)
+            pl = r[2] if len(r) > 2 and isinstance(r[2], str) else ""
+            pl = ";".join(x[:-5] + "=1" if x.endswith("=true") else x[:-6] + "=0" if x.endswith("=false") else x for x in pl.split(";"))
+            return obs_rec("ienq", 0, pl, r[1].split("."))
         if k == "CI":
             return obs_rec("cancelinvoke")
         return None
